@@ -58,7 +58,9 @@ func (e *Expression) String() string {
 // If there are any syntax or semantic errors, this will return an
 // error indicating the reason for the compilation failure.
 func Compile(path string, options ...opts.CompileOption) (*Expression, error) {
-	options = append(options, compopts.Transform(func(e expr.Expression) expr.Expression {
+	// Copy before appending: the variadic slice may alias a slice owned by the
+	// caller (e.g. Options.CompileOpts) whose spare capacity must not be written.
+	options = append(append([]opts.CompileOption{}, options...), compopts.Transform(func(e expr.Expression) expr.Expression {
 		return storeLastExpression{e}
 	}))
 
